@@ -34,7 +34,7 @@ SimTree(i) ==
         lf # Nil /\ r # Nil /\ PutHistT(i, <<r>> \o PathUp(tree[i], lf), RE(BOOLEAN))
   \/ ~Feed /\ Prune(i, RE(Depths))
 FreshD(i, p) == Pick({d \in 1..NDig : Mk(PutParent(i, p).g + 1, d) \notin DOMAIN tree[i] /\ PutParent(i, p).g < MaxGen
-                                        /\ upar[Mk(PutParent(i, p).g + 1, d)] = Unk}, 1)
+                                        /\ UP(Mk(PutParent(i, p).g + 1, d)) = Unk}, 1)
 SimDb(i) ==
   \/ \E del \in {RE(BOOLEAN)} : \E ch \in {Pick(Cons(del), <<>>)} : ch # <<>> /\ PutHistD(i, ch, del, RE(NcSet))
   \/ \E lf \in {Pick(Leaves(tree[i]), Nil)} : \E r \in {Pick(Above(tree[i], lf), Nil)} :
